@@ -20,7 +20,7 @@ LEVEL_TEXT = ("Decides on the type-checked MIR of the current tree: (R1) the onl
               "decode helpers, the crate's serde Deserializer/…Access impls, page-token decoding, the generic RouteHandler) every HttpError is built by a "
               "ClientErrorStatusCode-typed constructor with an evaluated 4xx constant — never for_internal_error / for_unavail / for_not_found / a struct literal; "
               "(R4) every potential panic site in that region (panic!/unreachable!/unimplemented!/assert!, unwrap/expect family, Index calls, listed panicking std APIs, "
-              "MIR Assert terminators) is on a reviewed table with a reason, keyed by (enclosing named function — closures and async bodies count for the function they are written in —, kind, callee) with multiplicity; (R5) for all 16 pairs of "
+              "MIR Assert terminators; not `x[..]`, the full-range Index of a slice / array / str / String / Vec, which selects everything) is on a reviewed table with a reason, keyed by (enclosing named function — closures and async bodies count for the function they are written in —, kind, callee) with multiplicity; (R5) for all 16 pairs of "
               "(endpoint's expected body content type, request's content type) the typed-body decoder is reached iff the pair is (Json,Json) or (UrlEncoded,UrlEncoded), "
               "each with its own parser (every Ok return of such a pair went through that parser and a TypedBody literal), and every path compatible with any other pair returns Err without reaching a parser. "
               "Not decided: what serde / serde_json / serde_urlencoded / derived Deserialize impls do with each malformed value (third-party; trusted to return Err), "
@@ -357,6 +357,14 @@ def r3_error_class(ctx):
 
 
 # ------------------------------------------------------------------------------------------------ R4
+def _full_range_index(f, bb):
+    """The Index call in block bb is `x[..]` on a core sequence type (Index<RangeFull> for [T] / [T; N] / str / String / Vec<T>)."""
+    t = f.blocks[bb]["term"]
+    ga = t.get("gargs") or []
+    return t.get("t") == "call" and re.search(r"ops::Index::index$", t.get("callee") or "") is not None and len(ga) == 2 and ga[1] == "std::ops::RangeFull" \
+        and re.match(r"^(\[.*\]|str|std::string::String|std::vec::Vec<.*>)$", ga[0]) is not None
+
+
 def r4_panic_census(ctx):
     R = ctx.rule("C10.R4", "every potential panic site in the extraction region (explicit panics, unwrap/expect, indexing, listed panicking APIs, MIR Assert terminators) "
                  "is on tables/c10_panics.txt with a reason; key = (enclosing named function, kind, callee-or-assert-kind) with multiplicity", floor=8)
@@ -375,6 +383,8 @@ def r4_panic_census(ctx):
         foreign_body = f.raw["span"].startswith("/")
         owners = census_owners(ds, f)
         for kind, what, exp, bb in panic_sites(f):
+            if kind == "index" and _full_range_index(f, bb):
+                continue    # `x[..]`: the full range of a slice / array / str / String / Vec selects everything and cannot be out of bounds
             for o in owners:
                 k = (norm_id(o), "foreign-macro" if (foreign_body and exp) else kind, what)
                 seen[k] = seen.get(k, 0) + 1
